@@ -665,7 +665,7 @@ def run_unit(cdef, config=None, callee_contracts=None):
     reasons = []
     first_inputs = None
     try:
-        unit_deadline = time.time() + float(os.environ.get('PYVC_UNIT_BUDGET_S', '700'))
+        unit_deadline = time.time() + float(config.get('unit_budget_s') or os.environ.get('PYVC_UNIT_BUDGET_S', '700'))
         while I.br.has_work():
             if I.br.paths_done >= I.br.max_paths:
                 reasons.append('path limit %d reached' % I.br.max_paths)
@@ -704,6 +704,7 @@ def run_unit(cdef, config=None, callee_contracts=None):
         res.time = time.time() - t0
         return res
     res.paths = I.br.paths_done
+    res.arbiter_dropped = getattr(I, 'arbiter_dropped', 0)
     res.inlined = sorted(I.inlined - {qualname(fn)})
     res.called_contracts = sorted(I.called_contracts)
     res.used_lemmas = sorted(I.used_lemmas)
